@@ -237,6 +237,67 @@ def login_trace(enc_mod, version, seed, keybits, token_len, n_play, thr):
     return tr, ok, run
 
 
+def no_entropy_logins(enc_mod, version, seed, keybits=1024):
+    """Two logins on a platform whose system randomness source fails (os.urandom raises NotImplementedError), each started
+    from the same state of Python's global pseudo-random generator.  Failing the login is fine; a secret that is a function
+    of that state (the same in both logins) is not fresh randomness. (Round 11, C18k.)  Returns the secrets that reached
+    the key holder (None: the login sent none)."""
+    import os as _os
+    import random as _random
+    prof = Profile(version)
+    priv, der = c10.rsa_key(keybits)
+    real = _os.urandom
+
+    def broken(n):
+        raise NotImplementedError('no randomness source on this platform')
+    rebound = [(_os, 'urandom', real)]
+    if getattr(_random, '_urandom', None) is real:
+        rebound.append((_random, '_urandom', real))
+    for name, val in list(vars(enc_mod).items()):
+        if val is real:
+            rebound.append((enc_mod, name, real))
+    secrets = []
+    for k in range(2):
+        run = Run(seed=seed + k)
+        run.grammar = False
+        holder = {}
+
+        def factory(idx, sess):
+            sc = TracingScript(run, prof, [])
+            sc.steps = [('expect', 2), ('send', prof.enc_request('-', der, bytes(range(4)))), ('pause', 'never')]
+            holder['sc'] = sc
+            return sc
+        run.serve(factory)
+
+        def scenario(run):
+            c = run.make_connection(allowed_versions={version})
+            c.connect()
+            run.settle()
+            try:
+                c.disconnect(immediate=True)
+            except Exception:       # noqa
+                pass
+        state = _random.getstate()
+        for obj, name, _ in rebound:
+            setattr(obj, name, broken)
+        try:
+            _random.seed(20260927)
+            run.go(scenario)
+        finally:
+            for obj, name, val in rebound:
+                setattr(obj, name, val)
+            _random.setstate(state)
+        sec = None
+        for p in holder['sc'].parsed:
+            if p['t'] == 'enc_response':
+                try:
+                    sec = c10.rsa_decrypt(priv, p['secret'])
+                except Exception:       # noqa
+                    sec = b'?'
+        secrets.append(sec)
+    return secrets
+
+
 def direct_trace(enc_mod, seed, nbytes):
     """The wrappers driven directly: random partitions of a random stream in both directions, interleaved."""
     rng = random.Random(seed)
@@ -423,6 +484,15 @@ def run(chk):
                           'outcome %s, errors %r' % (version, keybits, tok_len, run_.outcome, run_.errors[:2]), {'seed': j})
         tr['meta'] = {'kind': 'login', 'version': version, 'keybits': keybits, 'token_len': tok_len}
         traces.append(tr)
+    # ---- a platform without a randomness source: no login rather than a secret anybody can compute
+    for v in ([47, 757] if quick else [47, 107, 340, 498, 578, 757]):
+        secs = no_entropy_logins(enc_mod, v, chk.seed * 40013 + v)
+        chk.traces += 2
+        chk.case(('no-entropy', v))
+        if secs[0] is not None and secs[0] == secs[1]:
+            chk.violation('secret:not-fresh-without-entropy', 'os.urandom raises NotImplementedError and two logins start from the same state '
+                          'of the global pseudo-random generator (protocol %d): both sent the secret %s - a function of that state, '
+                          'not fresh randomness' % (v, secs[0].hex()), {'version': v})
     n_direct = 6 if quick else 80
     for j in range(n_direct):
         tr = direct_trace(enc_mod, chk.seed * 20011 + j, 60 if quick else rng.choice([40, 100, 300]))
